@@ -326,3 +326,6 @@ class C12(Prop):
 
 
 PROP = C12()
+
+PROP.rule += (" Strata added while closing seeded changes (DESIGN section 10): "
+              'hyphenated text columns, terse ~Well sections, numeric descriptions, WRAP spellings.')
